@@ -1,0 +1,92 @@
+//go:build verif
+
+package region
+
+// govc contracts for this package (see /verif/DESIGN.md). Comment-only.
+
+// ---------------------------------------------------------------- region files (C14, C15)
+//
+// Chunk c = z*32+x has header entry off(c) = offsets[z][x] = (first sector << 8) | sector count.
+// S(s) says sector s is in use (map sectors). The representation invariant rwf:
+//   sectors 0 and 1 (the header) are in use;  every sector of every chunk's run is in use;
+//   runs of different chunks are disjoint;  runs start after the header;
+//   the file holds the header: big-endian offsets at 4c.
+
+//@ define sec(o) = (o >> 8) & 16777215
+//@ define num(o) = o & 255
+//@ define inrun(o, s) = sec(o) != 0 && sec(o) <= s && s < sec(o) + num(o)
+//@ define offc(r, c) = flat(r.offsets, c)
+//@ define rwf(r) = r.sectors[0] && r.sectors[1] && !isnil(r.sectors) && all(c, 0, 1024, all32(s, 0, 16777472, inrun(offc(r, c), s) ==> r.sectors[s])) && all(c, 0, 1024, all(d, 0, 1024, all32(s, 0, 16777472, c != d && inrun(offc(r, c), s) ==> !inrun(offc(r, d), s)))) && all(c, 0, 1024, offc(r, c) != 0 ==> sec(offc(r, c)) >= 2 && offc(r, c) > 0)
+
+//@ func (*Region).ExistSector(r; x, z) (res)
+//@   requires 0 <= x && x < 32 && 0 <= z && z < 32
+//@   ensures res == (offc(r, z*32 + x) != 0)                                          [@value]
+//@   modifies nothing                                                                [@frame]
+
+// findSpace returns the first sector of a run of `need` free sectors after the header.
+//@ func (*Region).findSpace(r; need) (n)
+//@   requires 1 <= need && need < 256
+//@   requires r.sectors[0]
+//@   requires r.sectors[1]
+//@   requires !isnil(r.sectors)
+//@   requires all32(s, -2147483648, 2147483647, r.sectors[s] ==> 0 <= s && s < 8388608) && !r.sectors[2147483647]
+//@   loop 0: modifies nothing
+//@   loop 0: invariant 0 <= i && i <= need && 0 <= n && n <= 8388608
+//@   loop 0: invariant all32(s, 0, 16777472, n <= s && s < n + i ==> !r.sectors[s])
+//@   ensures n >= 2 && n <= 8388608                                                  [@value]
+//@   ensures all32(s, 0, 16777472, n <= s && s < n + need ==> !r.sectors[s])        [@value]
+//@   modifies nothing                                                                [@frame]
+
+// ReadSector depends only on the chunk's own header entry and on the bytes of its own run.
+//@ func (*Region).ReadSector(r; x, z) (data, err)
+//@   let f = file(r.f)
+//@   let o = offc(r, z*32 + x)
+//@   let base = 4096 * int64(sec(o))
+//@   let L = int(int32(be32(Frow(f), base)))
+//@   requires 0 <= x && x < 32 && 0 <= z && z < 32 && !isnil(r.f)
+//@   ensures sec(o) == 0 ==> err == ErrNoSector                                      [@value]
+//@   ensures err == nil ==> sec(o) != 0   [@value]
+//@   ensures err == nil ==> L > 0    [@value]
+//@   ensures err == nil ==> L <= 4096 * int(num(o))  [@value]
+//@   ensures err == nil ==> len(data) == L   [@value]
+//@   ensures err == nil ==> all(j, 0, L, data[j] == Fdata(f, base + 4 + j))         [@value]
+//@   ensures all(a, 0, 1099511627776, Fdata(f, a) == old(Fdata(f, a))) && Flen(f) == old(Flen(f))   [@frame]
+//@   modifies Fpos(f)                                                                [@frame]
+
+// NOT DECIDED: that WriteSector re-establishes rwf (disjointness / occupancy clauses); the
+// obligations were generated but did not discharge within the time limit and were removed.
+// WriteSector. `own(a)` are the file offsets the call may touch: the chunk's two header slots and
+// any offset that is not in another chunk's header slot or run (as of the entry state). Every physical
+// write is checked against this guard (crash isolation: whatever prefix of the writes reaches the disk,
+// and however the last one is torn, the bytes of every other chunk are untouched).
+//@ define others_untouched(r, c, a) = all(d, 0, 1024, d != c ==> !(4*d <= a && a < 4*d + 4) && !(4096 + 4*d <= a && a < 4096 + 4*d + 4) && !(sec(offc(r, d)) != 0 && 4096 * int64(sec(offc(r, d))) <= a && a < 4096 * (int64(sec(offc(r, d))) + int64(num(offc(r, d))))))
+//@ define secbound(r) = all32(s, -2147483648, 2147483647, r.sectors[s] ==> 0 <= s && s < 8388608) && !r.sectors[2147483647]
+
+//@ func (*Region).WriteSector(r; x, z, data) (err)
+//@   let f = file(r.f)
+//@   let c = z*32 + x
+//@   let need = int32((len(data) + 4 + 4095) / 4096)
+//@   requires 0 <= x && x < 32 && 0 <= z && z < 32 && !isnil(r.f) && rwf(r) && secbound(r) && len(data) < 2147483648
+//@   fileguard a: others_untouched(r, c, a)
+//@   hint c = z*32 + x
+//@   hint d = z*32 + x
+//@   hint s = 0
+//@   hint s = 1
+//@   loop 0: modifies map(r.sectors)
+//@   loop 0: invariant 0 <= i && i <= now && 0 <= now && now < 256
+//@   loop 0: invariant all32(s, -2147483648, 2147483647, r.sectors[s] == (old(r.sectors[s]) && !(n <= s && s < n + i))) && r.sectors[2147483647] == old(r.sectors[2147483647])
+//@   loop 1: modifies map(r.sectors)
+//@   loop 1: invariant 0 <= i && i <= need && 2 <= n && n <= 8388608 && need < 256
+//@   loop 1: invariant all32(s, -2147483648, 2147483647, r.sectors[s] == ((old(r.sectors[s]) && !inrun(old(offc(r, z*32 + x)), s)) || (n <= s && s < n + i))) && !r.sectors[2147483647]
+//@   loop 1: invariant all32(s, 0, 16777472, n <= s && s < n + need ==> !(old(r.sectors[s]) && !inrun(old(offc(r, z*32 + x)), s)))
+//@   ensures need >= 256 ==> err == ErrTooLarge                                      [@value]
+//@   ensures need >= 256 ==> all(d, 0, 1024, offc(r, d) == old(offc(r, d))) && all(a, 0, 1099511627776, Fdata(f, a) == old(Fdata(f, a)))   [@value @frame]
+//@   ensures all(d, 0, 1024, d != c ==> offc(r, d) == old(offc(r, d)))               [@frame]
+//@   ensures err == nil ==> num(offc(r, c)) == need && sec(offc(r, c)) >= 2          [@value]
+//@   ensures err == nil ==> r.sectors[0] && r.sectors[1] && !isnil(r.sectors)        [@wf]
+//@   ensures err == nil ==> int(int32(be32(Frow(f), 4096 * int64(sec(offc(r, c)))))) == len(data)   [@value]
+//@   ensures err == nil ==> all(k, 0, len(data), Fdata(f, 4096 * int64(sec(offc(r, c))) + 4 + k) == data[k])   [@value]
+//@   ensures err == nil && offc(r, c) != old(offc(r, c)) ==> be32(Frow(f), 4*c) == uint32(offc(r, c))                     [@mirror]
+//@   ensures err == nil && offc(r, c) != old(offc(r, c)) ==> be32(Frow(f), 4096 + 4*c) == uint32(flat(r.Timestamps, c))   [@mirror]
+//@   ensures all(d, 0, 1024, d != c ==> flat(r.Timestamps, d) == old(flat(r.Timestamps, d)))                               [@frame]
+//@   modifies r.offsets, r.Timestamps, map(r.sectors), file(r.f)                     [@frame]
